@@ -241,9 +241,10 @@ func verifC14StepSharedName(full bool) {
 		w.register(1, 1-f, -1)
 	}
 	w.genProducersShared(f, full)
+	w.sawTombstoneHitTwo = false // (the witness below is about the operation, not the construction)
 	w.step(kind)
 	// (witnesses about the history are stated before the queries)
-	w.reach(1, "shared-name-one-tombstone-hid-two-producers", kind == 9 && w.sawTombstoneHitTwo)
+	w.reach(1, "shared-name-one-tombstone-hid-two-producers", w.sawTombstoneHitTwo)
 	one := w.m.tomb[f][0] != w.m.tomb[f][1]
 	w.reach(1, "shared-name-only-one-of-the-two-is-tombstoned", one)
 	w.checkKeys()
